@@ -283,6 +283,12 @@ class Gen:
     a = AbsEl("Br", id=self.eid())
     if self.rng.random() < self.p["p_style"] * 0.3:
       a.styles["Color"] = style_value(self.rng, "Color")
+    if self.rng.random() < self.p["p_style"] * 0.4:
+      # any style attribute is allowed on br (length-valued ones need the inherited font size / extent to be computed)
+      for _ in range(self.rng.choice([1, 1, 2])):
+        prop = self.rng.choice([q for q in ALL_PROPS if q != "Display"])
+        a.styles[prop] = style_value(self.rng, prop)
+      self.classes.add("styled-br")
     return a
 
   def ruby_leaf(self, kind):
